@@ -22,7 +22,7 @@
 From Coq Require Import List NArith ZArith Bool.
 From ApiFu Require Import Base.Sexp Lex.Utf8 Lex.LexModel Lex.LexSpec Lex.LexRel
   Lex.LexProgress Lex.LexMode Lex.BlockProofs Lex.LexRefine Lex.LexValid Lex.LexWitness
-  Lex.LexErrors Lex.LexApi Lex.LexApiSpec Lex.LexApiProofs.
+  Lex.LexErrors Lex.LexApi Lex.LexApiSpec Lex.LexApiProofs Lex.LexPrefixSpec Lex.LexPrefix.
 Import ListNotations.
 Open Scope Z_scope.
 
@@ -187,6 +187,27 @@ Theorem C07_end_pos_spec : forall bs cps, utf8_decode bs = Some cps ->
   end_pos bs = advance_pos (1, 1) (length cps) cps.
 Proof. exact end_pos_spec. Qed.
 
+(** ** Texts with a lexical error: agreement up to the failure, and no early error
+
+    [agreed cps stoks failing] (Lex/LexPrefixSpec.v): the grammar's tokens [stoks] cut before the
+    first token of a known class and, when the grammar ends in an error ([failing]), without the
+    last token before the failure point (a comment that runs into a character outside
+    SourceCharacter is reported from inside that comment); [agreed_count]: the number of code points
+    these tokens cover. *)
+
+(** whatever the grammar says about a valid UTF-8 text (tokenises it, or stops at a place without
+    token): the scanner's tokens BEGIN with the agreed grammar tokens — kind, byte extent, line,
+    column, literal, decoded value — and every error it reports sits at a code point at or after
+    the end of those tokens, inside the text or at its end.  (With [e = EndOk] and no known class
+    this is C07_lex_refines_spec again; with [EndError] it says what happens before the error.) *)
+Theorem C07_lex_agrees_before_failure : forall bs cps stoks e ts es,
+  utf8_decode bs = Some cps -> spec_lex cps = (stoks, e) -> lex true bs = Done ts es ->
+  exists rest ns,
+    ts = map token_of_stoken (agreed cps stoks (is_end_error e)) ++ rest /\
+    es = map (fun n => advance_pos (1, 1) n cps) ns /\
+    Forall (fun n => (agreed_count (agreed cps stoks (is_end_error e)) <= n <= length cps)%nat) ns.
+Proof. exact lex_agrees_before_failure. Qed.
+
 (** ** The public API under ARBITRARY call sequences (Lex/LexApi.v, Lex/LexApiSpec.v)
 
     [run m src cs]: the answers of a fresh scanner (mode [m], source [src]) to the calls [cs] —
@@ -242,3 +263,4 @@ Print Assumptions C07_end_pos_spec.
 Print Assumptions C07_api_call_order.
 Print Assumptions C07_api_never_panics.
 Print Assumptions C07_api_call_order_refuted_before_fix.
+Print Assumptions C07_lex_agrees_before_failure.
